@@ -106,6 +106,7 @@ func runC03(ci interface{}) Result {
 		r.Inconclusive = tr.Inconclusive != ""
 		if tr.Hang != nil {
 			vstat.Class("hang-left-to-C01", 1)
+			dumpHang(sc, tr)
 		}
 		return r
 	}
